@@ -541,6 +541,17 @@ func (o *c05Oracle) value(t *c05Typ, f *c05Fld, v *c05JV, fv reflect.Value, pos 
 		}
 		for i := range v.M {
 			m := &v.M[i]
+			if seen[m.K] > 1 {
+				// which of the duplicates the decoder keeps is not specified: only the panic predicates
+				sub := c05NewOracle()
+				if m.V.T != "null" {
+					sub.value(t.E, nil, &m.V, reflect.Value{}, 2, p)
+				}
+				for id := range sub.panicPred {
+					o.panicPred[id] = true
+				}
+				continue
+			}
 			if t.E.P && c05IsScalar(t.E.K) && m.V.T != "null" {
 				o.panicPred["generatemap-ptr-elem-panic"] = true
 				o.notPlain = true
